@@ -1,20 +1,32 @@
-"""C03 (kernel) — placeholder module while the glue contracts are built."""
+"""C03 (kernel) — no accepted invocation is stranded: the no-stranding predicate J holds at every exit of the lifecycle
+operations; the single-crash windows between two effects are reported as known findings."""
 from __future__ import annotations
 
 from pyvc.prop import Prop, RunCtx
 
-from . import c01, glue
-from .common import Types, base_registry
+from .glueprop import GLUE_ASSUMPTIONS, GLUE_TRUSTED, setup
 
 PID = "C03"
 
 
 def build(ctx: RunCtx) -> Prop:
-    T = Types(ctx.src)
-    reg = base_registry(ctx.src, T)
-    reg.T = T
-    for c in c01.status_contracts(T, reg, ctx.repo, pid="C01"):
-        reg.add(c)
-    G = glue.glue_contracts(T, reg)
-    verify = [G[k] for k in G]
-    return Prop(pid=PID, title="glue", level="proof", technique="glue", registry=reg, verify=verify, min_obligations=5)
+    T, reg, G = setup(ctx)
+    names = ["register_new_invocations", "_route_new_call_invocation", "route_calls", "get_additional_invocations_to_run",
+             "get_blocking_invocations_to_run", "get_invocations_to_run", "reroute_invocations", "set_invocation_retry",
+             "set_invocation_status"]
+    verify = [G[n] for n in names]
+    from . import c03_more
+    verify += c03_more.contracts(T, reg, G, ctx)
+    from .c06_leaf import replay_poll_raises
+    return Prop(
+        pid=PID, title="J(id) := final, or available and queued, or PENDING/RUNNING with an owner - proved at every exit (normal and exceptional) of "
+                       "registration, claiming, reroute, retry, kill-and-reroute and the two recovery tasks, for all states satisfying J at entry",
+        level="other", technique="contract-based deductive verification of the no-stranding invariant at the exits of the real lifecycle functions (AST->z3 VCs)",
+        registry=reg, verify=verify, lemmas=c03_more.lemmas(T, reg, G, ctx),
+        replayers={"*get_additional_invocations_to_run/raises:InvocationStatusError:undeclared-exception*": replay_poll_raises},
+        assumptions=GLUE_ASSUMPTIONS + ["recovery notices PENDING (timeout scan) and RUNNING under a dead owner (heartbeat scan): C04"],
+        trusted_base=GLUE_TRUSTED,
+        not_decided="liveness ('reaches a final status', 'body completed at least once') needs fairness of recovery and surviving runners and is outside "
+                    "this family; a process kill is only expressible as 'the state between two effects' (step windows listed as known findings).",
+        min_obligations=100,
+    )
